@@ -292,6 +292,27 @@ theorem jail_idxOK (s : St) (a : Addr) (h : IdxOK s) : IdxOK (jail s a) := by
       · show del (setApplication s a app1).idx (idxKey a app1) = _
         rw [setApplication_idx_other s a app1 hni]; rfl
 
+theorem unjail_idxOK (s : St) (a : Addr) (h : IdxOK s) : IdxOK (unjail s a) := by
+  unfold unjail
+  cases hcur : get s.apps a with
+  | none => exact h
+  | some app =>
+    simp only
+    by_cases hj : app.jailed = true
+    · simp only [hj, if_true]
+      have hni : ¬ (app.status = stStaked ∧ app.jailed = false) := fun ⟨_, y⟩ => by rw [hj] at y; cases y
+      have hold := fun p => idx_not_staked h hcur hni p
+      let app' : App := { app with jailed := false }
+      by_cases hst : app.status = stStaked
+      · refine idxOK_restake a app' (power app.tokens) h hst rfl (fun p _ => hold p) (setApplication_apps s a app') ?_
+        rw [setApplication_idx_staked s a app' ⟨hst, rfl⟩]
+        exact (put_del_self _ _ _).symm
+      · have hni' : ¬ (app'.status = stStaked ∧ app'.jailed = false) := fun ⟨x, _⟩ => hst x
+        refine idxOK_same_idx a (some app') h ?_ hold ?_ (setApplication_idx_other s a app' hni')
+        · intro x e; cases e; exact hni'
+        · intro b; rw [setApplication_apps, get_put]
+    · simp only [hj]; exact h
+
 /-- The ledger invariant of the applications module: well-formed records + exact staked index. -/
 def LedgerInv (s : St) : Prop := WF s ∧ IdxOK s
 
@@ -304,6 +325,7 @@ theorem step_ledgerInv (s : St) (op : Op) (h : LedgerInv s) : LedgerInv (step s 
   | endBlock => exact endBlock_idxOK s h.2
   | force a => exact forceUnstake_idxOK s a h.1 h.2
   | jail a => exact jail_idxOK s a h.2
+  | unjail a => exact unjail_idxOK s a h.2
   | ext e => exact idxOK_same h.2 rfl rfl
   | donate src amt =>
     refine idxOK_same h.2 (donate_spec s src amt).1 ?_
